@@ -76,6 +76,10 @@ EXPLANATION += (
     ' Round 11: the axis typing of the election (leaf axis vs type axis) is shared.'
 )
 
+EXPLANATION += (
+    ' Round 13: the index-space typing of the on-disk transposition (rule of C13) is shared.'
+)
+
 RULE_TEXT = (
     "one obligation per (file kind, reader, required dataset), per "
     "provenance relation; non-trivial when the reader requires at least "
